@@ -197,6 +197,40 @@ pub fn tree_stale_linear_reader() -> ConcCase {
     }
 }
 
+/// F9 (C07 with C01): `find_or_put_tree_val` publishes a new node of a tree bin in two steps: the
+/// store to `first` puts it on the `next` list (what iterators, `transfer` and `clear` read), the
+/// store to the parent's `left`/`right` three stores later puts it in the tree (what `get` reads
+/// while nobody holds or waits for the write lock). In between an iterator yields the key and a
+/// `get` invoked after that yield does not find it — although nothing is ever removed.
+///
+/// all-equal hashes, keys 1..=10 in one tree bin. W (`ins 11`) stops after its first store (the
+/// store to `first`); R iterates (sees 11), then calls `get 11`; W finishes.
+pub fn iter_sees_unlinked_tree_insert() -> ConcCase {
+    let mut origin = 1200u32;
+    let mut fresh = || {
+        origin += 1;
+        origin
+    };
+    let prefill: Vec<(u32, u64, u32)> = (1..=10u32).map(|k| (k, 0, fresh())).collect();
+    let o = fresh();
+    let script = vec![
+        ScriptStep { tid: 0, until: Until::Done { kind: Kind::Store, what: "BinEntry", rel: Rel::Any, count: 1 } },
+        ScriptStep { tid: 1, until: Until::Finished },
+        ScriptStep { tid: 0, until: Until::Finished },
+    ];
+    ConcCase {
+        id: 4,
+        seed: 0xF9,
+        hash_class: "scenario:iter-sees-unlinked-tree-insert",
+        hashes: vec![0; 64],
+        cap: 64,
+        prefill,
+        programs: vec![vec![COp::Ins(11, 7, o)], vec![COp::Iter, COp::Get(11)]],
+        policy: Policy::Script(script),
+        pin: false,
+    }
+}
+
 pub fn all() -> Vec<(&'static str, ConcCase)> {
-    vec![("stale-helper", stale_helper()), ("clear-in-transfer-window", clear_in_transfer_window()), ("null-first-iter", null_first_iter()), ("tree-stale-linear-reader", tree_stale_linear_reader())]
+    vec![("stale-helper", stale_helper()), ("clear-in-transfer-window", clear_in_transfer_window()), ("null-first-iter", null_first_iter()), ("tree-stale-linear-reader", tree_stale_linear_reader()), ("iter-sees-unlinked-tree-insert", iter_sees_unlinked_tree_insert())]
 }
